@@ -266,15 +266,12 @@ Definition gupd (st : gstate) (r : result_CertRevocationResult) (c : C) : gstate
   else if (z =? 3) then (z, nok, subjs c, true, subjs c)
   else (z, nok, subjs c, rf, rs).
 
-Definition nonnil_servers (r : result_CertRevocationResult) : bool :=
-  forallb (fun p => is_some (ptr_val p)) (CertRevocationResult_ServerResults r).
-
 Definition gstep (results : list (ptr result_CertRevocationResult)) (chain : list C)
            (st : gstate) (i : Z) : option gstate :=
   match list_get chain i, list_get results i with
   | Some c, Some p =>
       match ptr_val p with
-      | Some r => if nonnil_servers r then Some (gupd st r c) else None
+      | Some r => Some (gupd st r c)
       | None => None
       end
   | _, _ => None
@@ -294,16 +291,14 @@ Definition gfinish (n : Z) (st : gstate) : Z * string :=
   let '(f, p) := if rf then (3, rs) else (fin, prob) in
   if (nok =? n) then (1, p) else (f, p).
 
-(* the inner loop over the server results only logs: it panics on a nil entry *)
-Lemma servers_loop K r l :
-  gen_verifier_revocationFinalResult_loop2 K r l
-  = if forallb (fun p => is_some (ptr_val p)) l then K tt else None.
+(* the inner loop over the server results only logs (since a146158 a nil entry is skipped) *)
+Lemma servers_loop K r l : gen_verifier_revocationFinalResult_loop2 K r l = K tt.
 Proof.
   induction l as [|p l IH]; [reflexivity|].
-  cbn [gen_verifier_revocationFinalResult_loop2 forallb].
-  destruct (ptr_val p) as [sv|]; cbn [is_some andb]; [|reflexivity].
+  cbn [gen_verifier_revocationFinalResult_loop2]. cbv zeta.
+  destruct (ptr_val p) as [sv|]; cbn [obind]; [|exact IH].
   destruct (negb (is_none (ServerResult_Error sv))); [|exact IH].
-  destruct ((CertRevocationResult_RevocationMethod r =? 3) && (ServerResult_RevocationMethod sv =? 1)); exact IH.
+  destruct (CertRevocationResult_RevocationMethod r =? 3); [destruct (ServerResult_RevocationMethod sv =? 1)|]; exact IH.
 Qed.
 
 Lemma floop1_gfold results chain : forall idxs fin nok prob rf rs,
@@ -320,8 +315,7 @@ Proof.
     destruct (list_get chain i) as [c|]; [|reflexivity].
     destruct (list_get results i) as [p|]; [|reflexivity].
     destruct (ptr_val p) as [r|]; [|reflexivity].
-    rewrite servers_loop. unfold nonnil_servers.
-    destruct (forallb (fun p0 => is_some (ptr_val p0)) (CertRevocationResult_ServerResults r)); [|reflexivity].
+    rewrite servers_loop.
     unfold gupd.
     destruct ((CertRevocationResult_Result r =? 1) || (CertRevocationResult_Result r =? 2)); [apply IH|].
     destruct (CertRevocationResult_Result r =? 3); apply IH.
@@ -373,14 +367,14 @@ Proof.
     destruct (CertRevocationResult_Result r =? 3); cbn; repeat split; reflexivity.
 Qed.
 
-(* within the validator contract: one non-nil result per certificate, no nil server result *)
+(* what checkRevocationResults established: one non-nil result per certificate *)
 Definition in_contract (results : list (ptr result_CertRevocationResult)) (chain : list C) : Prop :=
   List.length results = List.length chain
-  /\ Forall (fun p => exists r, ptr_val p = Some r /\ nonnil_servers r = true) results.
+  /\ Forall (fun p => exists r, ptr_val p = Some r) results.
 
 Lemma gfold_elems results chain : forall (ps : list (ptr result_CertRevocationResult)) (cs : list C) idxs st a,
   List.length ps = List.length cs ->
-  Forall (fun p => exists r, ptr_val p = Some r /\ nonnil_servers r = true) ps ->
+  Forall (fun p => exists r, ptr_val p = Some r) ps ->
   Forall2 (fun i pc => list_get results i = Some (fst pc) /\ list_get chain i = Some (snd pc)) idxs (combine ps cs) ->
   acc_of st a ->
   exists st', gfold results chain idxs st = Some st'
@@ -390,8 +384,8 @@ Proof.
   - cbn in H2. inversion H2; subst. exists st. split; [reflexivity|exact Ha].
   - destruct cs as [|c cs]; [discriminate Hl|]. cbn [combine] in H2.
     inversion H2 as [|i pc idxs' rest [Hr Hc] H2']; subst. cbn [fst snd] in Hr, Hc.
-    inversion Hf as [|? ? [r [Hp Hn]] Hf']; subst.
-    cbn [gfold]. unfold gstep. rewrite Hc, Hr, Hp, Hn.
+    inversion Hf as [|? ? [r Hp] Hf']; subst.
+    cbn [gfold]. unfold gstep. rewrite Hc, Hr, Hp.
     cbn [map fold_left]. unfold rres_of_ptr at 2. rewrite Hp.
     apply (IH cs idxs' (gupd st r c) _); [cbn in Hl; lia|exact Hf'|exact H2'|apply gupd_step; exact Ha].
 Qed.
@@ -753,27 +747,23 @@ Definition input_of (aexp ats : action) : input :=
 
 (* what the dependencies guarantee (outside it the Go code panics):
    Validate returns a timestamp when it returns no error; a chain accepted by
-   Verify and ValidateTimestampingCertChain is not empty; the revocation
-   results hold no nil server result *)
-Definition servers_ok (p : ptr result_CertRevocationResult) : Prop :=
-  forall cr, ptr_val p = Some cr -> nonnil_servers cr = true.
+   Verify and ValidateTimestampingCertChain is not empty *)
 
 Record contract : Prop := mk_contract {
   ct_ts : snd o_valid = None -> ptr_val (fst o_valid) <> None;
-  ct_chain : snd o_verify = None -> vtc (fst o_verify) = None -> fst o_verify <> [];
-  ct_servers : snd o_rev = None -> Forall servers_ok (fst o_rev) }.
+  ct_chain : snd o_verify = None -> vtc (fst o_verify) = None -> fst o_verify <> [] }.
 
 Lemma contract_in (res : list (ptr result_CertRevocationResult)) (tsa : list C) :
   shape_check (N.of_nat (List.length tsa)) (VRes (map rres_of_ptr res)) = None ->
-  Forall servers_ok res -> in_contract C res tsa.
+  in_contract C res tsa.
 Proof.
-  intros Hsh Hsv. pose proof (shape_check_spec (N.of_nat (List.length tsa)) (VRes (map rres_of_ptr res))) as H.
+  intros Hsh. pose proof (shape_check_spec (N.of_nat (List.length tsa)) (VRes (map rres_of_ptr res))) as H.
   rewrite Hsh in H. unfold shape_ok in H. apply andb_true_iff in H. destruct H as [Hl Hn].
   apply N.eqb_eq in Hl. rewrite map_length in Hl. split; [lia|].
-  rewrite forallb_forall in Hn. rewrite Forall_forall in *. intros p Hp.
-  specialize (Hn (rres_of_ptr p) (in_map _ _ _ Hp)). specialize (Hsv p Hp).
-  unfold rres_of_ptr in Hn. unfold servers_ok in Hsv. destruct (ptr_val p) as [cr|]; [|discriminate].
-  exists cr. split; [reflexivity|]. apply Hsv. reflexivity.
+  rewrite forallb_forall in Hn. rewrite Forall_forall. intros p Hp.
+  specialize (Hn (rres_of_ptr p) (in_map _ _ _ Hp)).
+  unfold rres_of_ptr in Hn. destruct (ptr_val p) as [cr|]; [|discriminate].
+  exists cr. reflexivity.
 Qed.
 
 Ltac leaf_err :=
@@ -805,8 +795,8 @@ Lemma existsb_cert_of t l : existsb (fun c => na c <? t) (map cert_of l) = exist
 Proof. induction l as [|c l IH]; [reflexivity|]. cbn [map existsb cert_of na]. now rewrite IH. Qed.
 
 (* the step after the trust stores were loaded (three copies in the generated code);
-   Hts Hch Hsv: the three clauses of the contract, unfolded *)
-Ltac post_tac Hts Hch Hsv :=
+   Hts Hch: the two clauses of the contract, unfolded *)
+Ltac post_tac Hts Hch :=
   let ts := fresh "ts" in let tsa := fresh "tsa" in let ev := fresh "ev" in let er := fresh "er" in
   let c0 := fresh "c0" in let Hg := fresh "Hg" in let w := fresh "w" in let Hw := fresh "Hw" in
   let res := fresh "res" in let Hsh := fresh "Hsh" in let Hin := fresh "Hin" in
@@ -833,7 +823,7 @@ Ltac post_tac Hts Hch Hsv :=
     (eexists; split; [reflexivity|]; cbn [res_rel fmt_of];
      eexists; split; [reflexivity|]; split; [reflexivity|]; eexists; split; reflexivity) |];
   cbn [is_none negb];
-  pose proof (contract_in _ _ Hsh (Hsv eq_refl)) as Hin;
+  pose proof (contract_in _ _ Hsh) as Hin;
   destruct (verdict_cases _ _ Hin) as (z & s & Hf & Hz); rewrite Hf; cbv zeta; cbv iota;
   match goal with |- context[rev_check ?v] => destruct (rev_check v) as [w|] end;
   [ destruct w; try contradiction;
@@ -844,11 +834,11 @@ Ltac post_tac Hts Hch Hsv :=
 (* the countersignature branch (three copies): goal
    exists e, <generated term> = Some e /\ res_rel (snd o_rev) (countersig (input_of ..)) e *)
 Ltac cs_tac Hc He Hsi Hsch Hag policy :=
-  let Hts := fresh "Hts" in let Hch := fresh "Hch" in let Hsv := fresh "Hsv" in
+  let Hts := fresh "Hts" in let Hch := fresh "Hch" in
   let tok := fresh "tok" in let e1 := fresh "e1" in let inf := fresh "inf" in let e2 := fresh "e2" in
   let tsp := fresh "tsp" in let e3 := fresh "e3" in let Hl := fresh "Hl" in
   let b := fresh "b" in let cs := fresh "cs" in let e4 := fresh "e4" in let Hb := fresh "Hb" in
-  destruct Hc as [Hts Hch Hsv];
+  destruct Hc as [Hts Hch];
   unfold countersig;
   cbn [input_of i_tok i_stores i_tsadb i_chain token_of k_present k_parses k_info k_imprint k_gen k_acc k_verify k_rules k_tsalen k_rev];
   unfold o_rev, o_verify, opts_of, o_ts, o_valid, o_info, o_parse, tsbytes in *;
@@ -863,7 +853,7 @@ Ltac cs_tac Hc He Hsi Hsch Hag policy :=
   pose proof (gen_load_equiv C store db "notary.x509" policy stores eq_refl Hag) as Hl;
   destruct (load_tsa stores [] db false) as [b|];
   [ destruct Hl as (cs & -> & Hb); cbn [is_none negb]; rewrite Hb; destruct b; cbn [negb];
-    [ rewrite ?aloop4, ?aloop7, ?aloop9; cbn [gen_verifier_verifyTimestamp_loop9]; post_tac Hts Hch Hsv
+    [ rewrite ?aloop4, ?aloop7, ?aloop9; cbn [gen_verifier_verifyTimestamp_loop9]; post_tac Hts Hch
     | leaf_err ]
   | destruct Hl as (cs & e4 & ->); cbn [is_none negb]; leaf_err ].
 
@@ -1019,8 +1009,8 @@ Definition model_input (D : deps) (stores : list string) (sv : trustpolicy_Signa
   input_of (d_now D) (d_C D) (d_Tok D) (d_parse D) (d_Inf D) (d_info D) (d_verify D) (d_validate D) (d_vtc D)
            (d_newpool D) (d_naf D) (d_nbf D) stores sv r db si aexp ats.
 
-Definition dep_contract (D : deps) (r : validator_t D) (si : signature_SignerInfo (d_C D)) : Prop :=
-  contract (d_C D) (d_Tok D) (d_parse D) (d_Inf D) (d_info D) (d_verify D) (d_validate D) (d_vtc D) (d_newpool D) r si.
+Definition dep_contract (D : deps) (si : signature_SignerInfo (d_C D)) : Prop :=
+  contract (d_C D) (d_Tok D) (d_parse D) (d_Inf D) (d_info D) (d_verify D) (d_validate D) (d_vtc D) (d_newpool D) si.
 
 (* the error the revocation validator returned for the TSA chain *)
 Definition validator_err (D : deps) (r : validator_t D) (si : signature_SignerInfo (d_C D)) : option err :=
@@ -1069,7 +1059,7 @@ Lemma g_verifyTimestamp_equiv (D : deps) : add_is_plus D ->
     outcome_ok outcome env lvl ->
     let si := EnvelopeContent_SignerInfo env in
     scheme_str si = "notary.x509" ->
-    store_agrees (d_C D) store stores db -> dep_contract D r si ->
+    store_agrees (d_C D) store stores db -> dep_contract D si ->
     exists e, g_verifyTimestamp D policy stores sv store r outcome = Some e
               /\ res_rel (validator_err D r si) (verify_timestamp (model_input D stores sv r db si aexp ats)) e.
 Proof.
@@ -1083,7 +1073,7 @@ Lemma g_verifyAuthenticTimestamp_equiv (D : deps) : add_is_plus D ->
   forall policy stores sv (store : store_t D) (r : validator_t D) db outcome env lvl aexp ats,
     outcome_ok outcome env lvl ->
     let si := EnvelopeContent_SignerInfo env in
-    (scheme_str si = "notary.x509" -> store_agrees (d_C D) store stores db /\ dep_contract D r si) ->
+    (scheme_str si = "notary.x509" -> store_agrees (d_C D) store stores db /\ dep_contract D si) ->
     exists e, g_verifyAuthenticTimestamp D policy stores sv store r outcome = Some (ts_result lvl e)
               /\ res_rel (validator_err D r si) (verify_authentic_timestamp (model_input D stores sv r db si aexp ats)) e.
 Proof.
@@ -1113,7 +1103,7 @@ Variable lvl : trustpolicy_VerificationLevel.
 Variables aexp ats : action.
 Hypothesis Hout : outcome_ok outcome env lvl.
 Let si := EnvelopeContent_SignerInfo env.
-Hypothesis Hx : scheme_str si = "notary.x509" -> store_agrees (d_C D) store stores db /\ dep_contract D r si.
+Hypothesis Hx : scheme_str si = "notary.x509" -> store_agrees (d_C D) store stores db /\ dep_contract D si.
 Let i := model_input D stores sv r db si aexp ats.
 
 (* the result is never a panic and always carries type and action *)
